@@ -280,7 +280,7 @@ def main(tier, seed, replay=None):
         if k not in seen:
             seen.add(k)
             cases.append(c)
-    cases = par.sample(cases, 4 if q else max(1, len(cases) // 20000), seed)
+    cases = par.sample(cases, 4 if q else max(1, len(cases) // 8000), seed)
     # all mapping arrays of length 1..4 (explicitly mapped basin)
     res2 = tlc.run("MC_Basin", CFG.format(m=2 if q else 3).replace(
         "NEXT Next", "NEXT MapNext"), workers=8, timeout=3000)
@@ -293,7 +293,7 @@ def main(tier, seed, replay=None):
         if k not in seen:
             seen.add(k)
             maps.append(c)
-    cases += par.sample(maps, 2 if q else 1, seed)
+    cases += par.sample(maps, 2 if q else max(1, len(maps) // 6000), seed)
     root = tlc.scratch_dir("vp_c07_")
     try:
         origin = root / "origin.rtdc"
